@@ -169,13 +169,25 @@ def run(repo):
 def _delegates(fi):
     """Every return value uses `self` only as the receiver of to_affine() / of another method, as an operand of
     an arithmetic or comparison operator (which dispatches to another of the wrapper's operators, each of them
-    checked here), through super(), or builds a Bounds object on the variable's own indices."""
+    checked here), through super(), or builds a Bounds object on the variable's own indices.  A returned local
+    is judged through every value it is bound to."""
     rets = [n.value for n in walk_no_nested(fi.node) if isinstance(n, ast.Return) and n.value is not None]
     if not rets:
         return False
-    for r in rets:
+    binds = {}
+    for n in walk_no_nested(fi.node):
+        if isinstance(n, ast.Assign) and len(n.targets) == 1 and isinstance(n.targets[0], ast.Name):
+            binds.setdefault(n.targets[0].id, []).append(n.value)
+
+    def ok_value(r, depth=0):
+        if depth > 4:
+            return False
+        if isinstance(r, ast.Constant) and r.value is None:
+            return True             # a "not handled here" marker that a caller tests before returning
+        if isinstance(r, ast.Name) and r.id in binds:
+            return all(ok_value(v, depth + 1) for v in binds[r.id])
         if ntext(r).startswith('Bounds('):
-            continue            # numeric right-hand side: a bound object on the variable's own indices
+            return True             # numeric right-hand side: a bound object on the variable's own indices
         par = {}
         for n in ast.walk(r):
             for c in ast.iter_child_nodes(n):
@@ -193,4 +205,5 @@ def _delegates(fi):
             if isinstance(p, ast.Call) and ntext(p.func) == 'super':
                 continue
             return False
-    return True
+        return True
+    return all(ok_value(r) for r in rets)
